@@ -158,6 +158,17 @@ def label (T : Table) (v : Int) (frm to : Str) : Q × Str :=
   let x := round2 r.1
   if x.num = 0 then (Q.zero, []) else (x, r.2)
 
+/-- `int64(float64(v) * r)` of `report.New`'s value formatter (`-divide_by`: r = 1/divide_by):
+the product truncated toward zero.  `r.den = 0` (no such ratio exists) leaves the value alone. -/
+def scaleByRatio (v : Int) (r : Q) : Int :=
+  if r.den = 0 then v else (v * r.num).sign * (((v * r.num).natAbs / r.den : Nat) : Int)
+
+/-- the value formatter of a report (`report.New`): the ratio is applied to the sample value
+FIRST (`if r > 0 && r != 1`), the result is labelled — so an automatic unit is selected for the
+value that is actually printed -/
+def formatValue (T : Table) (r : Q) (v : Int) (frm to : Str) : Q × Str :=
+  label T (if Q.ltB Q.zero r && !decide (Q.eqv r Q.one) then scaleByRatio v r else v) frm to
+
 inductive PctClass where
   | hundred  -- "  100%"
   | fixed    -- "%5.2f%%"
